@@ -195,7 +195,14 @@ def record_and_validate(ctx, jobs, module, cfg, prop_of=None, par=8):
     def one(job):
         name, args = job
         path = os.path.join(ctx.work, name + ".ndjson")
-        rv(list(args) + ["--out", path])
+        try:
+            rv(list(args) + ["--out", path])
+        except ToolError:
+            # a panic inside an extern "C" function cannot unwind: the recorder's panic hook leaves a note naming the call
+            # before the process aborts. A C-ABI call that kills the process (its native twin has returned) is data, not a tool error.
+            if os.path.exists(path + ".abort"):
+                return name, path + ".abort", 1, ("abort", open(path + ".abort").read().strip()), 0, 0
+            raise
         n = nlines(path)
         rej, gen, dist, out = validate_trace(ctx, module, cfg, path)
         return name, path, n, rej, gen, dist
@@ -209,6 +216,11 @@ def record_and_validate(ctx, jobs, module, cfg, prop_of=None, par=8):
         ctx.transitions += gen
         with open(path) as f:
             lines = f.readlines()
+        if rej is not None and rej[0] == "abort":
+            rp = os.path.join(ctx.replays, name + ".abort.json")
+            shutil.copy(path, rp)
+            ctx.violation("recording %s: the process aborted inside the C ABI (the native call had returned): %s" % (name, rej[1][:300]), rp)
+            continue
         if lines[1:]:
             ctx.sample({"trace": name, "event": json.loads(lines[min(len(lines) - 1, 7)])})
         if rej is not None:
